@@ -27,7 +27,11 @@ impl Context {
     #[verifier::external_body]
     fn max_size(&self) -> (n: usize) ensures n == ctx_max_size(*self) { unimplemented!() }
     #[verifier::external_body]
-    fn define(&mut self, name: &str) -> (s: Symbol) ensures *final(self) == ctx_after_define(*old(self), name@), s == ctx_define_symbol(*old(self), name@) { unimplemented!() }
+    // PROVED-BY (totality and the Err case): O05.sym c05_define_total (Kani, real Context::define)
+    fn define(&mut self, name: &str) -> (r: Result<Symbol, Error>)
+        ensures r is Ok ==> *final(self) == ctx_after_define(*old(self), name@) && r->Ok_0 == ctx_define_symbol(*old(self), name@),
+                r is Err ==> *final(self) == *old(self)
+    { unimplemented!() }
     #[verifier::external_body]
     fn resolve(&self, name: &str) -> (r: Option<Symbol>) ensures r == ctx_resolve(*self, name@) { unimplemented!() }
 }
@@ -89,14 +93,15 @@ impl SymbolTable {
     }
 
     /// a declaration goes into the current context only
-    pub fn define(&mut self, name: &str) -> (s: Symbol)
+    pub fn define(&mut self, name: &str) -> (r: Result<Symbol, Error>)
         requires old(self).contexts@.len() >= 1
         ensures
             //@VACUITY
-            final(self).contexts@ == old(self).contexts@.drop_last().push(ctx_after_define(old(self).contexts@.last(), name@)),
-            s == ctx_define_symbol(old(self).contexts@.last(), name@),
+            r is Ok ==> final(self).contexts@ == old(self).contexts@.drop_last().push(ctx_after_define(old(self).contexts@.last(), name@))
+                && r->Ok_0 == ctx_define_symbol(old(self).contexts@.last(), name@),
+            r is Err ==> final(self).contexts@ =~= old(self).contexts@,
     {
-//@BODY file=symbols.rs fn=define impl=SymbolTable sig="pub fn define(&mut self, name: &str) -> Symbol" rules="R4"
+//@BODY file=symbols.rs fn=define impl=SymbolTable sig="pub fn define(&mut self, name: &str) -> Result<Symbol, Error>" rules="R4"
     }
 }
 
